@@ -511,7 +511,7 @@ impl Gen {
                         4 if room => Op { op: "b_split_to".into(), h, a: self.index(len), ..Default::default() },
                         5 => Op { op: "b_truncate".into(), h, a: self.index(len), ..Default::default() },
                         6 if self.r.chance(30) => Op { op: "b_clear".into(), h, ..Default::default() },
-                        7 => Op { op: "b_advance".into(), h, a: self.index(len), ..Default::default() },
+                        7 => Op { op: if self.r.chance(35) { "b_copy_to_slice" } else { "b_advance" }.into(), h, a: self.index(len), ..Default::default() },
                         8 if room => Op { op: "b_copy_to_bytes".into(), h, a: self.index(len), ..Default::default() },
                         9 => Op { op: "b_into_vec".into(), h, ..Default::default() },
                         10 => Op { op: "b_into_mut".into(), h, ..Default::default() },
@@ -562,12 +562,13 @@ impl Gen {
                                 2 => rel("spare", 1),
                                 _ => abs(self.r.below(self.maxlen + 1)),
                             };
-                            Op { op: "m_extend".into(), h, a, mode: self.r.below(13) as i64, ..Default::default() }
+                            Op { op: "m_extend".into(), h, a, mode: self.r.below(14) as i64, ..Default::default() }
                         }
+                        12 if self.r.chance(self.bad_pct()) => Op { op: "m_put_bytes".into(), h, a: rel("max", -([0i64, 1, 3, 7][self.r.below(4)])), val: 200 + self.r.below(16) as u8, ..Default::default() },
                         12 => Op { op: "m_put_bytes".into(), h, a: abs(self.r.below(self.maxlen + 1)), val: 200 + self.r.below(16) as u8, ..Default::default() },
                         13 => Op { op: "m_fill_spare".into(), h, ..Default::default() },
                         14 => Op { op: "m_write_at".into(), h, a: abs(self.r.below(64)), val: 220 + self.r.below(16) as u8, ..Default::default() },
-                        15 => Op { op: "m_advance".into(), h, a: self.index(len), ..Default::default() },
+                        15 => Op { op: if self.r.chance(35) { "m_copy_to_slice" } else { "m_advance" }.into(), h, a: self.index(len), ..Default::default() },
                         16 => {
                             let others: Vec<usize> = live.iter().copied().filter(|&o| o != h && matches!(m.hs[o], Some(H::M(_)))).collect();
                             if others.is_empty() {
